@@ -29,6 +29,7 @@ def setup():
     # warm the Miri sysroots / build caches
     jobs = miri_jobs("seqdrive", [["walk", "--count", "1", "--ops-min", "3", "--ops-max", "3"]], "miri-warm", seeds="0..1")
     run_jobs(jobs)
+    run_probes("C05", Agg("C05"))  # warms the probe crate's build cache
     print(f"setup done in {time.time() - t0:.0f}s")
     return 0
 
